@@ -2,11 +2,17 @@
 """seedrun.py <patch> <PID> [<PID>...]: apply a seeded change to /repo, run the named checks (quick), undo it.
 Prints one line per check: property, exit code, VIOLATION/KNOWN lines.  Never leaves /repo modified."""
 import os, subprocess, sys
-patch = os.path.abspath(sys.argv[1])
-pids = sys.argv[2:]
+repo = "/repo"
+args = sys.argv[1:]
+if args[0] == "--repo":          # evaluate on a scratch worktree instead (VERIF_REPO), leaving /repo free
+    repo = args[1]
+    args = args[2:]
+    os.environ["VERIF_REPO"] = repo
+patch = os.path.abspath(args[0])
+pids = args[1:]
 here = os.path.dirname(os.path.dirname(os.path.abspath(__file__)))
-assert subprocess.run(["git", "-C", "/repo", "diff", "--quiet"]).returncode == 0, "/repo is not clean"
-subprocess.run(["git", "-C", "/repo", "apply", patch], check=True)
+assert subprocess.run(["git", "-C", repo, "diff", "--quiet"]).returncode == 0, repo + " is not clean"
+subprocess.run(["git", "-C", repo, "apply", patch], check=True)
 try:
     for p in pids:
         r = subprocess.run([os.path.join(here, "check"), p, "--tier", os.environ.get("VERIF_TIER", "quick")],
@@ -18,4 +24,4 @@ try:
         if r.returncode == 2:
             print("   " + r.stderr[-600:])
 finally:
-    subprocess.run(["git", "-C", "/repo", "checkout", "--", "."], check=True)
+    subprocess.run(["git", "-C", repo, "checkout", "--", "."], check=True)
